@@ -104,6 +104,13 @@ static void specials() {
     { Dot11Ack ak; (void)ak.find_pdu<Dot11Ack>(); (void)tins_cast<Dot11Ack*>(static_cast<PDU*>(&ak)); Dot11* d = new Dot11(ak); add("Dot11#sliced_copy_of_used_ack", "Dot11", d, d); }
     { EthernetII e = EthernetII() / IP("1.2.3.4", "4.3.2.1") / TCP(1, 2) / RawPDU("u"); (void)e.find_pdu<TCP>(); (void)e.find_pdu<RawPDU>(); (void)e.rfind_pdu<IP>(); PDU* c = e.clone(); add("EthernetII#clone_of_used_chain", "EthernetII", c, c);
       PDU* i = e.rfind_pdu<IP>().clone(); add("IP#clone_of_used_inner", "IP", i, i); TCP* t = new TCP(e.rfind_pdu<TCP>()); add("TCP#copy_of_used_inner", "TCP", t, t); }
+    // every (type, subtype) a plain Dot11 header can be given by hand - incl. the management subtypes no class exists for (action frames,
+    // 13..15) and the reserved type 3 - and an action frame parsed from bytes: it stays a plain Dot11
+    for (int ty = 0; ty < 4; ++ty) for (int st = 0; st < 16; ++st) { if (ty == 0 && st < 13 && st != 6 && st != 7) continue; if (ty != 0 && st % 5) continue;
+        Dot11* d = new Dot11(); d->type((small_uint<2>)(uint8_t)ty); d->subtype((small_uint<4>)(uint8_t)st); add("Dot11#type=" + std::to_string(ty) + ",subtype=" + std::to_string(st), "Dot11", d, d); }
+    { uint8_t fr[30] = {0xd0, 0x00, 0x00, 0x00, 1, 2, 3, 4, 5, 6, 7, 8, 9, 10, 11, 12, 1, 2, 3, 4, 5, 6, 0x10, 0x00, 3, 0, 1, 2, 3, 4}; PDU* p = Dot11::from_bytes(fr, sizeof fr); add("Dot11#parsed_action_frame", "Dot11", p, p);
+      RadioTap* r = new RadioTap(); r->inner_pdu(Dot11::from_bytes(fr, sizeof fr)); add("Dot11#parsed_action_frame_under_radiotap", "Dot11", r, r->inner_pdu()); }
+    { RSNEAPOL* e = new RSNEAPOL(); e->type(EAPOL::EAPOL_WPA); add("RSNEAPOL#type=WPA(254)", "RSNEAPOL", e, e); }
     // contents that "look like" another class must not change what an object is: a plain BootP whose vendor area starts with the DHCP
     // magic cookie (set by hand / obtained by parsing DHCP bytes as BootP), a RawPDU holding the bytes of an IP packet, an LLC holding
     // SNAP's SAP values, an EthernetII whose type field names a VLAN tag, a UDP between DHCP ports with a raw payload
